@@ -34,7 +34,10 @@ BytesToLimbs(b) == [i \in 1..(Len(b) \div 2) |-> b[2 * i - 1] + 256 * b[2 * i]]
 
 Flat(frs) == LET F[i \in 0..Len(frs)] == IF i = 0 THEN <<>> ELSE F[i - 1] \o frs[i] IN F[Len(frs)]
 
-VariantOf(c, r) == c.variant
+\* tx_rx_sync_system_time falls back to the plain cycle when the network has no DC reference clock
+EffVariant(c) ==
+    IF c.variant = "sync" /\ \A i \in 1..Len(c.devices) : ("dc" \notin DOMAIN c.devices[i] \/ c.devices[i].dc = "none")
+    THEN "plain" ELSE c.variant
 
 TInit ==
     \E it \in Items :
@@ -47,7 +50,7 @@ TInit ==
                 /\ image = g.pdi_len
                 /\ inLen = g.read_len
                 /\ ndev = Len(g.members)
-                /\ variant = r.case.variant
+                /\ variant = EffVariant(r.case)
                 /\ pc = "loop"
         /\ sent = 0 /\ checks = 0 /\ timeRead = FALSE /\ frames = <<>> /\ iters = 0
 
@@ -67,7 +70,7 @@ MonitorErrors(r, g, cy) ==
         imgIn == Flat([i \in 1..Len(lrws) |-> lrws[i].data_in])
         subsIn == Flat([i \in 1..Len(cy.subdevices) |-> cy.subdevices[i].inputs_after])
         wkcSum == LET F[i \in 0..Len(lrws)] == IF i = 0 THEN 0 ELSE F[i - 1] + lrws[i].wkc IN F[Len(lrws)]
-        clock == r.case.variant # "plain"
+        clock == EffVariant(r.case) # "plain"
     IN (IF cy.result # "ok" THEN {<<"CycleFailed", cy.result>>} ELSE
         (IF \E i \in 1..Len(lrws) :
                 Addr32(lrws[i].adr) # (IF i = 1 THEN start ELSE Addr32(lrws[i - 1].adr) + lrws[i - 1].len)
